@@ -164,13 +164,13 @@ class Run:
                               "skipped_idna": S.get("skipped_idna", 0), "wall_s": round(time.time() - t0, 1)})
         return S, M, st
 
-    def tlc_events(self, module, family, kind, cfg=None, timeout=900, chunks=None, events_args=(), source_file=None):
+    def tlc_events(self, module, family, kind, cfg=None, timeout=900, chunks=None, events_args=(), source_file=None, tool="events"):
         """TLC family (p-lines) -> `vh events` (composite events recorded from the real code) -> TLC Trace_Events.
         Returns the list of (event, verdicts) that are not ok."""
         chunks = chunks or min(12, NCPU)
         pre = os.path.join(self.scratch, "%s.%s.ev" % (family, kind))
         log = os.path.join(self.scratch, "%s.%s.tlc.log" % (family, kind))
-        ecmd = [self.vh, "events", "--kind", kind, "--out", pre, "--chunks", str(chunks), "--log", log] + list(events_args)
+        ecmd = [self.vh, tool] + (["--kind", kind] if tool == "events" else []) + ["--out", pre, "--chunks", str(chunks), "--log", log] + list(events_args)
         t0 = time.time()
         st = {"generated": 0, "distinct": 0}
         if source_file:
